@@ -8,7 +8,7 @@ src=/tmp/wt_$pid/$sub/$k
 id=${pid}-${tag}$k
 wt=/tmp/confirm_$id
 git -C /repo worktree add --detach $wt HEAD >/dev/null 2>&1 || { echo "cannot create worktree"; exit 3; }
-cleanup() { git -C /repo worktree remove --force $wt >/dev/null 2>&1; rm -rf /tmp/pytest-of-root; }
+cleanup() { git -C /repo worktree remove --force $wt >/dev/null 2>&1; }
 trap cleanup EXIT
 cp $src/demo.py $wt/_demo.py
 # demos written by the agents use their own worktree path; point them at this one
@@ -17,7 +17,7 @@ sed -i "s#/tmp/wt_$pid#$wt#g" $wt/_demo.py
 sed "s#/tmp/wt_$pid#$wt#g" $src/patch.diff > /tmp/confirm_$id.patch
 ( cd $wt && git apply --whitespace=nowarn /tmp/confirm_$id.patch ) || { echo "$id: PATCH DOES NOT APPLY"; exit 3; }
 ( cd $wt && PYTHONPATH=$wt timeout 600 /venv/bin/python _demo.py >/tmp/confirm_$id.mut.log 2>&1 ); mut=$?
-suite=$(cd $wt && PYTHONPATH=$wt /venv/bin/python -m pytest -q -p no:cacheprovider -n 8 --timeout=900 2>&1 | tail -1)
+suite=$(cd $wt && PYTHONPATH=$wt /venv/bin/python -m pytest -q -p no:cacheprovider -n 8 --timeout=900 --basetemp=$wt/.pt 2>&1 | tail -1)
 fired=$(/verif/tools/try_seed.sh $src/patch.diff 2>&1)
 echo "$id: demo clean=$clean mutated=$mut suite='$suite'"
 echo "$fired" | tail -n 20 | cut -c1-300
